@@ -1892,6 +1892,8 @@ class Recipe:
         """
         if self.locked:
             raise RuntimeError("This recipe is locked.")
+        if name == 'all':
+            raise ValueError("'all' is reserved for the whole recipe and cannot be ended.")
         if self.current_stage != name:
             raise ValueError("Current stage does not match name.")
 
